@@ -62,3 +62,27 @@ func DebugLeaves(r *Run, rel, fn, callee string) {
 		}
 	}
 }
+
+// DebugPhiArg prints the phi edges (with pred in-facts) of argument k of calls to callee in f.
+func DebugPhiArg(r *Run, rel, fn, callee string, k int) {
+	f := r.P.Func(rel, fn)
+	ff := r.E.Facts(f, core.Ctx{})
+	for _, c := range r.callsIn(f, callee) {
+		a := c.Common().Args[k]
+		fmt.Printf("arg %T %s\n", a, a)
+		if phi, ok := a.(*ssa.Phi); ok {
+			for i, e := range phi.Edges {
+				pred := phi.Block().Preds[i]
+				fmt.Printf("  edge %d: %s from block %d\n", i, e, pred.Index)
+				for _, fc := range ff.In[pred].Sorted() {
+					if fc.Kind == "cmp" {
+						fmt.Println("      in:", fc.Key())
+					}
+				}
+				for _, fc := range ff.EdgeFacts(pred, phi.Block()) {
+					fmt.Println("      edge:", fc.Key())
+				}
+			}
+		}
+	}
+}
